@@ -53,6 +53,9 @@ def write_medit(spec):
     tets = [c for c in spec.get("cells", []) if len(c) == 4]
     if tets:
         out += ["Tetrahedra", str(len(tets))] + [" ".join(str(v + 1) for v in c) + " 0" for c in tets]
+    hexes = [c for c in spec.get("cells", []) if len(c) == 8]
+    if hexes:
+        out += ["Hexahedra", str(len(hexes))] + [" ".join(str(v + 1) for v in c) + " 0" for c in hexes]
     out.append("End")
     return "\n".join(out) + "\n"
 
@@ -122,6 +125,8 @@ def gen_spec(rng, tier):
                     pts.append([float(i), float(j), float(k)])
         for i in range(nx):
             cells.append([vid(i, 0, 0), vid(i + 1, 0, 0), vid(i + 1, 1, 0), vid(i, 1, 0), vid(i, 0, 1), vid(i + 1, 0, 1), vid(i + 1, 1, 1), vid(i, 1, 1)])
+        if rng.chance(0.3):
+            cells.insert(rng.below(len(cells) + 1), [vid(0, 0, 0), vid(1, 0, 0), vid(1, 1, 0), vid(1, 0, 1)])  # a tetrahedron among the hexahedra
         spec["points"], spec["cells"] = pts, cells
     n = len(spec["points"])
     # reverse some declared edges (high index first), drop duplicates (duplicate declarations are outside the statement)
@@ -163,7 +168,7 @@ class C02(Sim):
             "non-trivial = >= 1 build and >= 1 observation or re-wrap of a mesh with at least edges")
     FAULT_KINDS = ["rewrap", "config_flip", "failed_attempt"]
     PROBES = ["invalid_edge_filtered", "dense_edge_attr", "sparse_edge_attr", "numpy_flavour", "tuple_flavour", "hex_cells", "tet_cells",
-              "declared_faces_on_volume", "polygon_face", "file_path", "from_arrays_path", "rewrap", "switch_off_build", "query_script", "2d_padded", "peek_dimensionality", "input_lists_reused", "two_stage_build", "first_attempt_raised", "first_attempt_accepted", "rewrap_with_more_edges", "face_with_repeated_vertex"]
+              "declared_faces_on_volume", "polygon_face", "file_path", "from_arrays_path", "rewrap", "switch_off_build", "query_script", "2d_padded", "peek_dimensionality", "input_lists_reused", "two_stage_build", "first_attempt_raised", "first_attempt_accepted", "rewrap_with_more_edges", "face_with_repeated_vertex", "path_rewritten_between_loads"]
     QUICK_RUNS = 4000
     THOROUGH_RUNS = 400000
     BLOCK = 40
@@ -225,7 +230,7 @@ class C02(Sim):
         if not s["eattr"]:
             if not s["cells"] and all(a >= 0 and b >= 0 for a, b in s["edges"]):
                 out.append("file_obj")  # (a negative index in an OBJ file is a RELATIVE index, not an invalid one: not expressible there)
-            if ar <= {3, 4} and car <= {4}:
+            if ar <= {3, 4} and car <= {4, 8}:
                 out.append("file_medit")
             if s["cells"] and car == {4} and not s["faces"] and not s["edges"]:
                 out.append("file_tet")
@@ -247,7 +252,7 @@ class C02(Sim):
             fl = r.choice(cfg["flavours"]) if path in ("raw_class", "instanciate", "two_stage") else ("numpy" if path == "from_arrays" else "file")
             return {"c": "builder", "op": "build", "path": path, "flavour": fl, "slot": "m%d" % self.nbuild, "pad2d": r.chance(0.5),
                     "peek": r.choice([None, None, "early", "late"]), "reuse": r.chance(0.4),
-                    "retry": r.choice(["bad_edge", "config"]) if cfg["faults_on"] and r.chance(0.3) else None}
+                    "retry": r.choice(["bad_edge", "config"]) if cfg["faults_on"] and r.chance(0.3) else None, "decoy": r.chance(0.3)}
         slot = r.choice(sorted(self.slots))
         if c == "rewrapper":
             if r.chance(0.25) and hasattr(self.slots[slot].mesh, "edges"):
@@ -379,6 +384,13 @@ class C02(Sim):
         self.probes["file_path"] += 1
         ext, writer = {"file_obj": ("obj", write_obj), "file_medit": ("mesh", write_medit), "file_tet": ("tet", write_tet)}[path]
         fname = self.fs.root + "%s.%s" % (ev["slot"], ext)
+        if ev.get("decoy"):
+            # the path held ANOTHER mesh before, which was loaded once; the file was then rewritten (by the independent writer, not by
+            # mouette.save): loading the path again must give what the file says now
+            self.fs.files[fname] = writer({"points": [[0.0, 0.0, 0.0], [1.0, 0.0, 0.0], [0.0, 1.0, 0.0], [0.0, 0.0, 1.0]], "edges": [],
+                                           "faces": [] if path == "file_tet" else [[0, 1, 2]], "cells": [[0, 1, 2, 3]] if path != "file_obj" else []}).encode()
+            call(M.mesh.load, fname)
+            self.probes["path_rewritten_between_loads"] += 1
         self.fs.files[fname] = writer(s).encode()
         return call(M.mesh.load, fname)
 
@@ -565,7 +577,8 @@ class C02(Sim):
         if op == "build":
             spec = self.spec
             if ev["path"] == "file_medit":  # the format groups faces by kind: the file says triangles first, then quadrilaterals
-                spec = dict(spec, faces=[f for f in spec["faces"] if len(f) == 3] + [f for f in spec["faces"] if len(f) == 4])
+                spec = dict(spec, faces=[f for f in spec["faces"] if len(f) == 3] + [f for f in spec["faces"] if len(f) == 4],
+                            cells=[c for c in spec["cells"] if len(c) == 4] + [c for c in spec["cells"] if len(c) == 8])
             normal = Normal(spec, self.sw["ce"], self.sw["cf"])
             o = self._build(ev, normal)
             ac = "%s/%s" % (ev["path"], ev["flavour"])
